@@ -41,7 +41,7 @@ ASSUMPTIONS = [
     'the harness keeps a strong reference to every component',
     'an instance is attached to at most one entity at a time',
     'create_entity over an existing id that already holds the same type is '
-    'generated only in the thorough tier (own input class)',
+    'generated in every fourth history only (own input class)',
 ]
 
 WEIGHTS = {'create': 20, 'add': 22, 'readd': 6, 'remove': 14, 'delete': 8,
@@ -53,7 +53,7 @@ def gen_one(rng, tier, index):
     big = tier == 'thorough' and rng.random() < 0.5
     case = {'classes': wl.gen_classes(rng, rng.randint(3, 6), wl.SHAPES),
             'ids': wl.gen_ids(rng, rng.randint(3, 5), aliases=False),
-            'allow_over': tier == 'thorough' and index % 4 == 0,
+            'allow_over': index % 4 == 0,
             'ops': []}
     weights = dict(WEIGHTS)
     if rng.random() < 0.4:
